@@ -31,6 +31,9 @@ TInit == Init /\ cid \in 1..Len(Traces) /\ l = 1 /\ ok = TRUE /\ why = "-" /\ wo
               /\ (dirs["d1"].exists <=> Traces[cid][1].de = 1)
 
 Ev == Traces[cid][l]
+\* the boot event also says whether a default rule is configured (dr = 1: policy_default_rule names a registered
+\* helper policy that allows the role "dflt"; dr = 0: the default rule names nothing defined)
+DefaultAllows == IF Traces[cid][1].dr = 1 THEN {"dflt"} ELSE {}
 Step(e) ==
   CASE e.op = "write"   -> Write(e.f, e.kind) /\ ok' = (ok /\ clock' = e.t) /\ why' = IF clock' = e.t THEN why ELSE "clock"
     [] e.op = "empty"   -> Empty(e.f) /\ ok' = (ok /\ clock' = e.t) /\ why' = why
@@ -43,8 +46,8 @@ Step(e) ==
     [] e.op = "setopt"  -> SetOption(e.v = 1) /\ ok' = ok /\ why' = why
     [] e.op = "load"    ->
          /\ Load(e.force = 1)
-         /\ LET specDec == Decisions(st'.rules)
-                layered == Decisions(FreshPolicyN(fs, dirs, enfnew, nreg))
+         /\ LET specDec == DecisionsD(st'.rules, DefaultAllows)
+                layered == DecisionsD(FreshPolicyN(fs, dirs, enfnew, nreg), DefaultAllows)
                 c10 == ObsA(e.dec, ToSet(e.roles)) = specDec            \* long-lived enforcer follows the specification
                 c09 == ObsA(e.fresh, ToSet(e.roles)) = layered          \* a fresh enforcer computes the layering sentence
                 eq  == DefaultMode => ObsA(e.dec, ToSet(e.roles)) = ObsA(e.fresh, ToSet(e.roles))       \* C10 itself (default overwrite mode)
